@@ -39,7 +39,7 @@ TTransfer == IsEvent("Transfer") /\ Transfer(Ev.in.dest, Ev.in.sender, Ev.in.v) 
 TBalance  == IsEvent("GetBalance") /\ GetBalance(Ev.in.addr) /\ Matches
 TCall     == IsEvent("Call") /\ Call(Ev.in.dest, Ev.in.sender, Ev.in.v) /\ Matches
 TDeploy   == IsEvent("Deploy") /\ Deploy(Ev.in.dest, Ev.in.v) /\ Matches
-TReturn   == IsEvent("Return") /\ Return(Ev.in.ok) /\ Top.via = Ev.in.via /\ Matches
+TReturn   == IsEvent("Return") /\ Return(Ev.in.code) /\ Top.via = Ev.in.via /\ Matches
 TMissing  == IsEvent("CallMissing") /\ CallMissing(Ev.in.dest, Ev.in.sender, Ev.in.v) /\ Matches
 TraceNext == TNew \/ TSet \/ TTransfer \/ TBalance \/ TCall \/ TDeploy \/ TReturn \/ TMissing
 TraceSpec == TraceInit /\ [][TraceNext]_tvars
@@ -59,8 +59,8 @@ ObsCall  == /\ (IsEvent("Call") \/ IsEvent("Deploy"))
             /\ sc' = Ev.in.dest /\ ObsState /\ ret' = "none" /\ want' = NoWant
 ObsReturn == /\ IsEvent("Return") /\ saved # <<>>
              /\ saved' = SubSeq(saved, 1, Len(saved) - 1) /\ sc' = Top.sc /\ ObsState
-             /\ ret' = IF Ev.in.ok THEN "ok" ELSE "fail"
-             /\ want' = IF Ev.in.ok THEN NoWant ELSE WantOf(Top)
+             /\ ret' = IF Ev.in.code = 0 THEN "ok" ELSE "fail"
+             /\ want' = IF Ev.in.code = 0 THEN NoWant ELSE WantOf(Top)
 ObsMissing == /\ IsEvent("CallMissing") /\ ObsState /\ ret' = "fail"
               /\ want' = WantOf(Frame("exec", Ev.in.dest, Ev.in.sender, Ev.in.v)) /\ UNCHANGED <<sc, saved>>
 ObsNew == /\ IsEvent("New")
